@@ -2,8 +2,47 @@
 Shares the model coq/models/TaskEngine.v and the driver harness/overlay/overlord/state/zz_verif_c01_test.go with C01/C03."""
 
 
+import re
+
+_SR = re.compile(r"\(SR (\d+) (true|false) (\d+) (true|false) (true|false)\)")
+_READY = set("0378")      # Hold Done Undone Error in the driver's status code (TaskEngine.dec_sts)
+KEY = "undo-rerun-sees-handlerless-dependent-in-undo"
+
+
 def classify(case):
-    return None
+    """Recomputes the whole C02 monitor on the recorded history. Returns KEY only if EVERY deviation in the history is
+    of the one known class: a RE-RUN (not fresh) of an undo handler whose unready halt tasks are all tasks WITHOUT undo
+    handler sitting in Undo. Any other deviation (gate, do start, fresh undo start, hook, another status, a halt task
+    that has an undo handler) makes it an ordinary violation."""
+    tasks = (case.get("input") or {}).get("tasks") or []
+    halts = {t: [i for i, tk in enumerate(tasks) if t in (tk.get("waits") or [])] for t in range(len(tasks))}
+    hit = False
+    for step in case.get("observed") or []:
+        obs = step["obs"]
+        if not obs.get("hook_ok", False):
+            return None
+        for sr in obs.get("starts") or []:
+            m = _SR.fullmatch(sr)
+            if not m:
+                return None
+            t, undo, vec, gate, fresh = int(m.group(1)), m.group(2) == "true", m.group(3)[1:], m.group(4) == "true", m.group(5) == "true"
+            if not gate:
+                return None
+            if not undo:
+                if any(c != "3" for c in vec):
+                    return None
+                continue
+            hs = halts.get(t, [])
+            if len(hs) != len(vec):
+                return None
+            for h, c in zip(hs, vec):
+                if c in _READY:
+                    continue
+                if (not fresh) and c == "5" and not tasks[h].get("undo", True):
+                    hit = True
+                else:
+                    return None
+    return KEY if hit else None
 
 
 _EV = dict(requires=["V.models.TaskEngine"], case_type="TaskEngine.case",
@@ -35,7 +74,8 @@ SPEC = dict(
         "Go's map iteration order inside Ensure is an explicit argument of the model's Ensure event (theorems hold for every order); the tie compares only at the Ensure fixpoint, where the result does not depend on the order",
         "blocked predicates (SetBlocked/AddBlocked), cleanup handlers, TaskRunner.Stop and handlers that call SetStatus themselves are not modelled",
     ],
-    assumptions=["PARTIAL: the prerequisite guarantee is proved for fresh starts (the Do->Doing / Undo->Undoing write) over all graphs and all event lists; for re-runs after Retry it is monitored on the implementation, not proved (do handlers), and refuted for undo handlers whose halt task has no undo handler (C02_undo_rerun_refuted; harmless: such a task has nothing to undo)",
+    assumptions=["KNOWN FINDING undo-rerun-sees-handlerless-dependent-in-undo: a re-run (after Retry) of an undo handler can see a halt task without undo handler in Undo; reported by the monitor, classified by recomputing the whole monitor in checks/c02.py; map-order dependent, provoked by a scripted 7-task history (met unless Go's map order visits 5,4,3,2,1,0 in exactly that relative order: 1 in 720)",
+                 "proved over all graphs and event lists: fresh starts see their prerequisites Done / ready and the gate open; over all histories with user aborts on unready changes only and no model fuel bound hit: EVERY do start (fresh or re-run) sees all wait tasks Done. PARTIAL: sufficiency of the model's fuel bounds is not proved (a hit is a correspondence mismatch); the undo side holds for fresh starts only, re-runs are refuted (C02_undo_rerun_refuted, the known finding)",
                  "handlers return nil, an error, *Retry or *Wait and do not change task statuses themselves",
                  "time is the mocked timeNow of the state package; Task.At is only set through Retry.After"],
 )
